@@ -10,3 +10,4 @@ import McpModel.OAuth.Challenge
 import McpModel.Paginate.Props
 import McpModel.Negotiate.Props
 -- (Paginate/Negotiate drivers are roots of their own executables; two `main`s cannot be imported together)
+import McpModel.TypedTool.Props
